@@ -87,6 +87,15 @@ func set.Add
   preserves ghost(smem), ghost(salive), ghost(madd), ghost(mdel)
   -- single-element writers change the map inside a read section of applyMutex (which Apply / Compute / Replace exclude)
   ghost before call OrderedMap.Set: assert rheld(s.applyMutex)
+  -- the answer is the one the inserting operation itself gave (one atomic step of the ordered map decides both whether the
+  -- element was there and that it is there now): a separate look before the insertion lets two concurrent Adds of a new
+  -- element both report "added"
+  ghost local inserted Bool
+  ghost local wasthere Bool
+  ghost at entry: inserted = false
+  ghost after call OrderedMap.Set: wasthere = r1
+  ghost after call OrderedMap.Set: inserted = true
+  ghost at return: assert inserted && (r0 <==> !wasthere)
   ensures unlocked(s.applyMutex)
   ensures r0 <==> !old(has(s.readableSet.SerializableOrderedMap.OrderedMap.dictionary.m, element))
   ensures has(s.readableSet.SerializableOrderedMap.OrderedMap.dictionary.m, element)
@@ -306,6 +315,19 @@ func readableSet.ToSlice
   modifies allelems(int)
   ensures len(slice) >= 0
 
+-- HasAll: every set but the nil set asks the other set for its elements (an empty set has all elements of an empty set),
+-- and the answer is whether that iteration ended without an error
+func readableSet.HasAll
+  instantiate T: int
+  opt only-ghost-asserts
+  modifies everything
+  ghost local asked Bool
+  ghost local ferr Int
+  ghost at entry: asked = false
+  ghost after call ReadableSet.ForEach: asked = true
+  ghost after call ReadableSet.ForEach: ferr = result
+  ghost at return: assert r != nil ==> asked && (r0 <==> ferr == nil)
+  ghost at return: assert r == nil ==> !r0
 -- HasAll: the iteration over the other set stops with an error exactly at an element this set does not have
 func readableSet.HasAll$1
   instantiate T: int
